@@ -48,6 +48,12 @@ def gen_cases(tier, seed):
     rng = np.random.default_rng([seed, 109])
     n = 20 if tier == 'quick' else 200
     cases = []
+    if tier == 'thorough':
+        # clusters beyond 65 535 cells (16-bit counters)
+        for _ in range(2):
+            cases.append({'seed': int(rng.integers(2 ** 31)),
+                          'n_partitions': 3, 'raw': True,
+                          'x_dtype': 'int32', 'big': 'huge'})
     for i in range(n):
         cases.append({'seed': int(rng.integers(2 ** 31)),
                       'n_partitions': 4 if tier == 'quick' else 8,
@@ -75,6 +81,9 @@ def make_dataset(rng, raw, x_dtype, big=False):
     if big:
         n_genes = int(rng.integers(2, 5))
         n_cells = int(rng.integers(300, 1100))
+    if big == 'huge':
+        n_genes = 2
+        n_cells = int(rng.integers(95000, 105000))
     genes = gen.gene_names(rng, n_genes)
     # labels: every leaf at least one cell when possible; some unlabelled
     leaves = model.leaves
@@ -297,6 +306,9 @@ def run_case(spec, work):
         if spec.get('big'):
             rat = int(rng.choice([50, 100, 37, n_cells // 3]))
         n_proc = int(rng.integers(1, 6))
+        if spec.get('big') == 'huge':
+            rat = int(rng.choice([5000, 9000, n_cells // 3]))
+            n_proc = int(rng.integers(2, 5))
         out = work / f'stats_{pi}.h5'
         what = (f'entry={entry} encoding={enc} rows_at_a_time={rat} '
                 f'n_processors={n_proc} cells={n_cells} genes={len(genes)} '
